@@ -279,6 +279,7 @@ def alphabet(cfg: dict[str, Any], tier: str) -> list[dict[str, Any]]:
         nss: list[Optional[str]] = [None, "kw:u1", "ctx:u1", "both:u1", "kw:u2"]
         if cfg["kind"] == "ns":
             nss.append("kw:0")
+
         if lean:
             nss = [None, "kw:u1", "both:u1", "kw:u2"] if cfg["kind"] != "fs" else [None, "kw:u1", "both:u1"]
             if cfg["kind"] == "ns":
@@ -372,18 +373,22 @@ def run_history(cfg: dict[str, Any], hist: list[dict[str, Any]], sandbox: Option
     return w
 
 
-def bfs(cfg: dict[str, Any], depth: int, tier: str, res: Result, sandbox: Optional[str]) -> None:
+def bfs(cfg: dict[str, Any], depth: int, tier: str, res: Result, sandbox: Optional[str],
+        first: Optional[int] = None) -> None:
+    """``first``: restrict the search to histories that begin with action number ``first`` (used to split an
+    expensive configuration over several shards; states are then de-duplicated per shard only)."""
     acts = alphabet(cfg, tier)
     s0 = init_state(cfg)
     hist_of: dict[Any, list[dict[str, Any]]] = {s0: []}
     frontier = deque([s0])
+    root_only: Optional[dict[str, Any]] = acts[first] if first is not None else None
     outcomes = set()
     while frontier:
         st = frontier.popleft()
         hist = hist_of[st]
         if len(hist) >= depth:
             continue
-        for act in acts:
+        for act in ([root_only] if (root_only is not None and not hist) else acts):
             w = run_history(cfg, hist, sandbox)
             r = w.apply(act)
             res.transitions += 1
@@ -670,11 +675,15 @@ class C23(Check):
 
     def depth(self, cfg: dict[str, Any], tier: str) -> int:
         if tier == "quick":
-            return 3 if cfg["kind"] == "fs" else 4
+            if cfg["kind"] == "fs":
+                # capacity 3-4 cannot overflow within 3 requests anyway; the file-system configurations are the
+                # expensive ones (real files, explicit mtimes), so those two capacities get depth 2 in quick
+                return 3 if cfg["capacity"] <= 2 else 2
+            return 4
         return 4 if cfg["kind"] == "fs" else 5
 
     def bounds(self, tier: str) -> dict[str, Any]:
-        return {"bfs_depth": "fs: 3, others: 4" if tier == "quick" else "fs: 4, others: 5",
+        return {"bfs_depth": "fs: 3 (capacity 1-2) / 2 (capacity 3-4), others: 4" if tier == "quick" else "fs: 4, others: 5",
                 "configs": 64, "concurrent_deviation_bound": 2 if tier == "quick" else 3}
 
     def shards(self, tier: str) -> list[Any]:
@@ -683,7 +692,8 @@ class C23(Check):
             for cap in (1, 2, 3, 4):
                 for auto in (True, False):
                     for namespaced in (False, True):
-                        sh.append(("bfs", {"kind": kind, "capacity": cap, "auto_reload": auto, "namespaced": namespaced}))
+                        cfg = {"kind": kind, "capacity": cap, "auto_reload": auto, "namespaced": namespaced}
+                        sh.append(("bfs", cfg))
         bases = concurrent_bases(tier)
         for i in range(0, len(bases), 3):
             sh.append(("conc", bases[i : i + 3]))
@@ -696,7 +706,7 @@ class C23(Check):
         try:
             if shard[0] == "bfs":
                 cfg = shard[1]
-                bfs(cfg, self.depth(cfg, tier), tier, res, sandbox)
+                bfs(cfg, self.depth(cfg, tier), tier, res, sandbox, first=shard[2] if len(shard) > 2 else None)
             else:
                 for base in shard[1]:
                     explore_concurrent(base, 2 if tier == "quick" else 3, res, sandbox)
